@@ -12,17 +12,11 @@ Definition C02_validator_statement : Prop := validator_only_all_paths.
 Theorem validator_drop_refuted : ~ validator_only_all_paths.
 Proof. exact Cond.validator_drop_refuted. Qed.
 
-(* not even the found path need take a validated branch (duplicated last block of PathToLeaf): b1: sink(x); if
-   Validate(x) goto b1.  Confirmed on the real tool. *)
-Theorem found_path_validated_refuted : ~ found_path_validated.
-Proof. exact Cond.found_path_validated_refuted. Qed.
-
 (* ---- what IS proved about the code as it is ------------------------------------------------------------------------ *)
 Theorem validator_single_path_partial : forall g src dst v raw,
   find_path g src dst = Found raw ->
   edge_dropped (as_predicate_to (simple_path_condition g raw) v) = true ->
-  exists p, cfg_path g src dst p /\ raw = p ++ [dst] /\
-            (passes_validated_branch g p v \/ step_validated g v dst dst = true).
+  cfg_path g src dst raw /\ passes_validated_branch g raw v.
 Proof. exact Cond.validator_single_path_partial. Qed.
 
 Theorem dropped_iff_raw_validated : forall g raw v,
@@ -35,7 +29,7 @@ Theorem find_path_terminates : forall g src dst, wf_cfg g -> find_path g src dst
 Proof. exact Cond.find_path_terminates. Qed.
 
 Theorem find_path_sound : forall g src dst raw,
-  find_path g src dst = Found raw -> exists p, cfg_path g src dst p /\ raw = p ++ [dst].
+  find_path g src dst = Found raw -> cfg_path g src dst raw.
 Proof. exact Cond.find_path_sound. Qed.
 
 Theorem find_path_complete : forall g src dst,
@@ -80,8 +74,8 @@ Proof. exact Cond.sanitizer_stop_exact. Qed.
 (* ---- non-vacuity ---------------------------------------------------------------------------------------------------- *)
 Example early_return_dropped :
   wf_cfgb early_return = true /\
-  find_path early_return 0 2 = Found [0; 2; 2] /\
-  edge_dropped (as_predicate_to (simple_path_condition early_return [0; 2; 2]) vx) = true /\
+  find_path early_return 0 2 = Found [0; 2] /\
+  edge_dropped (as_predicate_to (simple_path_condition early_return [0; 2]) vx) = true /\
   ideal_kept early_return 0 2 vx = NoPath.
 Proof. exact Cond.early_return_dropped. Qed.
 
@@ -91,7 +85,12 @@ Example triangle_refutes :
     cfg_path triangle 0 2 p /\ ~ passes_validated_branch triangle p vx.
 Proof. exact Cond.validator_drop_refuted_triangle. Qed.
 
-Example diamond_bypass : ideal_kept diamond 0 3 vx = Found [0; 1; 3; 3].
+Example dowhile_kept :
+  find_path dowhile 0 1 = Found [0; 1] /\
+  edge_dropped (as_predicate_to (simple_path_condition dowhile [0; 1]) vx) = false.
+Proof. exact Cond.dowhile_kept. Qed.
+
+Example diamond_bypass : ideal_kept diamond 0 3 vx = Found [0; 1; 3].
 Proof. exact Cond.diamond_bypass. Qed.
 
 Example nil_check_char :
